@@ -18,6 +18,8 @@ from litex.soc.integration import export
 from litex.soc.integration.common import get_mem_data
 from litex.soc.interconnect import wishbone
 from litex.soc.interconnect.csr import CSRStorage, CSRStatus, AutoCSR
+from litex.soc.interconnect.csr_eventmanager import EventManager, EventSourcePulse
+from litex.soc.cores import cpu as cpu_mod
 
 from lib import env
 from lib.collect import Collector, rng_for, h
@@ -35,10 +37,10 @@ RULE = ("one case = one CPU-less SoCCore configuration (bus standard wishbone/ax
 ASSUMPTIONS = ["migen tracer shim (names only)", "the bus master is a 32-bit Wishbone port (adapters inserted by SoCBusHandler.add_adapter are part of the path)",
                "csr_read_simple/csr_write_simple are 32-bit accesses at the given address (hw/common.h)", "ctrl_reset is not written (it resets the SoC)"]
 FLOORS = {"quick": {"registers_replayed": 600, "accessor_reads": 600, "accessor_writes": 300, "socs_built": 40, "mem_region_words_checked": 200,
-                    "cross_format_entries_compared": 2000, "image_bytes_checked": 12000, "registers_wider_than_64_bits": 40},
+                    "cross_format_entries_compared": 2000, "image_bytes_checked": 12000, "registers_wider_than_64_bits": 40, "interrupts_raised_and_located": 40},
           "thorough": {"registers_replayed": 9000, "accessor_reads": 9000, "accessor_writes": 4500, "socs_built": 600,
                        "mem_region_words_checked": 3000, "cross_format_entries_compared": 30000, "image_bytes_checked": 300000,
-                       "registers_wider_than_64_bits": 600}}
+                       "registers_wider_than_64_bits": 600, "interrupts_raised_and_located": 500}}
 SHARD_TIMEOUT = {"quick": 1500, "thorough": 3400}
 N_SAMPLES = 2
 
@@ -52,6 +54,9 @@ def plan(tier, seed):
                       "interconnect": ["shared", "crossbar"][(i // 9) % 2], "csr_dw": [32, 32, 8][(i // 2) % 3],
                       "ordering": ["big", "big", "little"][(i // 6) % 3], "paging": [0x800, 0x400, 0x1000][(i // 5) % 3],
                       "seed": "%d/C14/soc/%d" % (seed, i)})
+        if i % 4 == 3 or i % 16 == 6:
+            # a SoC with a (core-less) CPU: enables the IRQ handler, the CPU's IO-region rules and memory map
+            cases[-1]["cpu"] = True
     for i in range(800 if tier == "quick" else 9000):
         cases.append({"kind": "image", "dw": [32, 64][i % 2], "endianness": ["little", "big"][(i // 2) % 2],
                       "seed": "%d/C14/image/%d" % (seed, i)})
@@ -64,7 +69,39 @@ class _Platform(GenericPlatform):
         GenericPlatform.__init__(self, "sim", [])
 
 
-def gen_periph_specs(rng, nper):
+class VerifCPU(cpu_mod.CPU):
+    """A CPU with no core: interrupt vector, reset and two idle Wishbone masters - what SoC.add_cpu needs to enable the IRQ handler and
+    wire ev.irq lines to numbered interrupt inputs (the real CPU wrappers need vendor sources that are not installed)."""
+    category, family, name, human_name = "softcore", "verif", "verifcpu", "VerifCPU"
+    variants = ["standard"]
+    data_width, endianness = 32, "little"
+    gcc_triple, gcc_flags, linker_output_format = ("none",), "", "elf32-little"
+    nop = "nop"
+    io_regions = {0x80000000: 0x80000000}
+    mem_map = {"rom": 0x00000000, "sram": 0x10000000, "main_ram": 0x40000000, "csr": 0xf0000000}
+    interrupts = {}
+    reset_address_check = False
+
+    def __init__(self, platform, variant="standard"):
+        self.platform, self.variant = platform, variant
+        self.reset = Signal()
+        self.interrupt = Signal(32)
+        self.ibus = wishbone.Interface(data_width=32, address_width=32, addressing="word")
+        self.dbus = wishbone.Interface(data_width=32, address_width=32, addressing="word")
+        self.periph_buses = [self.ibus, self.dbus]
+        self.memory_buses = []
+        self.interrupts = {"resv": VerifCPU.reserved_n}
+        self.reset_address = 0
+
+    def set_reset_address(self, reset_address):
+        self.reset_address = reset_address
+
+
+VerifCPU.reserved_n = 0
+cpu_mod.CPUS["verifcpu"] = VerifCPU
+
+
+def gen_periph_specs(rng, nper, with_irq=False):
     specs = []
     for pi in range(nper):
         regs = []
@@ -77,6 +114,9 @@ def gen_periph_specs(rng, nper):
             regs.append({"kind": kind, "name": "r%d" % i, "size": size, "atomic": kind == "storage" and rng.random() < 0.3,
                          "reset": rng.getrandbits(size)})
         specs.append({"name": "per%d" % pi, "regs": regs, "mem": ({"width": 32, "depth": rng.choice([8, 32])} if rng.random() < 0.35 else None)})
+        if with_irq and rng.random() < 0.75:
+            # an EventManager with 1..3 pulse sources; interrupt number fixed by the designer (30%) or allocated
+            specs[-1]["ev"] = {"n": rng.randint(1, 3), "irq": rng.choice([None, None, None, rng.randint(1, 31)])}
     return specs
 
 
@@ -85,7 +125,8 @@ def build_soc(case, rng, specs, init_files):
     rom_size = rng.choice([0, 0x100, 0x400])
     sram_size = rng.choice([0x100, 0x400, 0x1000])
     main_size = rng.choice([0, 0x200, 0x800])
-    kw = dict(cpu_type=None, with_uart=False, with_timer=False, ident="", with_ctrl=True,
+    VerifCPU.reserved_n = rng.choice([0, 0, 5, 31])
+    kw = dict(cpu_type="verifcpu" if case.get("cpu") else None, with_uart=False, with_timer=False, ident="", with_ctrl=True,
               integrated_rom_size=rom_size, integrated_rom_init=init_files.get("rom", []),
               integrated_sram_size=sram_size, integrated_main_ram_size=main_size,
               csr_data_width=case["csr_dw"], csr_ordering=case["ordering"], csr_paging=case["paging"],
@@ -108,7 +149,26 @@ def build_soc(case, rng, specs, init_files):
                            name="mem")
             p.specials += p.mem
             objs[sp["name"] + "_mem"] = ({"kind": "mem"}, p.mem)
+        if sp.get("ev"):
+            p.submodules.ev = EventManager()
+            p.triggers = []
+            for j in range(sp["ev"]["n"]):
+                src = EventSourcePulse(name="e%d" % j)
+                setattr(p.ev, "e%d" % j, src)
+                p.triggers.append(src.trigger)
+            p.ev.finalize()
+            objs[sp["name"] + "_ev"] = ({"kind": "ev", "n": sp["ev"]["n"]}, p)
         setattr(soc.submodules, sp["name"], p)
+        if sp.get("ev") and soc.irq.enabled:
+            try:
+                if sp["ev"]["irq"] is not None:
+                    soc.irq.add(sp["name"], n=sp["ev"]["irq"])
+                else:
+                    soc.irq.add(sp["name"], use_loc_if_exists=True)
+            except Exception:
+                # the designer's fixed number was refused (taken / reserved): let the handler allocate
+                env.restore_stderr()
+                soc.irq.add(sp["name"], use_loc_if_exists=True)
     tb = wishbone.Interface(data_width=32, address_width=32, addressing="word")
     soc.bus.add_master("tb", master=tb)
     soc.finalize()
@@ -173,11 +233,13 @@ def export_all(soc, use_builder, tmpdir):
         out["svd"] = open(os.path.join(tmpdir, "csr.svd")).read()
         out["header"] = open(os.path.join(b.generated_dir, "csr.h")).read()
         out["mem_header"] = open(os.path.join(b.generated_dir, "mem.h")).read()
+        out["soc_header"] = open(os.path.join(b.generated_dir, "soc.h")).read()
     else:
         out["json"] = export.get_csr_json(soc.csr_regions, soc.constants, soc.mem_regions)
         out["csv"] = export.get_csr_csv(soc.csr_regions, soc.constants, soc.mem_regions)
         out["svd"] = export.get_csr_svd(soc)
         out["header"] = export.get_csr_header(soc.csr_regions, soc.constants, soc.mem_regions["csr"].origin)
+        out["soc_header"] = export.get_soc_header(soc.constants)
         out["mem_header"] = export.get_mem_header(soc.mem_regions)
     return out
 
@@ -186,7 +248,7 @@ def export_all(soc, use_builder, tmpdir):
 def run_soc(case):
     rng = rng_for(case["seed"])
     nper = rng.randint(2, 4)
-    specs = gen_periph_specs(rng, nper)
+    specs = gen_periph_specs(rng, nper, with_irq=bool(case.get("cpu")))
     tmpdir = tempfile.mkdtemp(prefix="c14_", dir=os.environ.get("VERIF_TMP", "/tmp"))
     errs = []
     st = {"regs": 0, "reads": 0, "writes": 0, "memw": 0, "xfmt": 0, "socs": 0}
@@ -238,11 +300,35 @@ def run_soc(case):
         mm = re.search(r"#define %s_BASE 0x([0-9a-f]+)L\n#define %s_SIZE 0x([0-9a-f]+)" % (name.upper(), name.upper()), ex["mem_header"])
         if not mm or (int(mm.group(1), 16), int(mm.group(2), 16)) != (m["base"], m["size"]):
             errs.append({"kind": "json-memheader-disagree", "memory": name})
+    # interrupt numbers: JSON constants, CSV constants and soc.h must agree; the allocator's table is what the wiring used
+    irq_pub = {}
+    if case.get("cpu"):
+        csv_const = {}
+        for line in ex["csv"].splitlines():
+            f = line.split(",")
+            if f[0] == "constant":
+                csv_const[f[1]] = f[2]
+        for name, (r, o) in sorted(objs.items()):
+            if r["kind"] != "ev":
+                continue
+            per = name[:-3]
+            cname = per + "_interrupt"
+            st["xfmt"] += 1
+            j_ = js["constants"].get(cname)
+            c_ = csv_const.get(cname)
+            mm = re.search(r"#define %s (\d+)" % cname.upper(), ex["soc_header"])
+            h_ = int(mm.group(1)) if mm else None
+            if j_ is None or c_ is None or h_ is None or not (int(j_) == int(c_) == h_):
+                errs.append({"kind": "interrupt-number-formats-disagree", "peripheral": per, "json": j_, "csv": c_, "soc_h": h_})
+            else:
+                irq_pub[per] = h_
     errs = errs[:3]
     # ---- simulation: replay accessors
     storages = {n: o for n, (r, o) in objs.items() if r["kind"] == "storage"}
     statuses = {n: o for n, (r, o) in objs.items() if r["kind"] == "status"}
     watch = [o.storage for o in storages.values()] + [o.status for o in statuses.values()]
+    if case.get("cpu"):
+        watch.append(soc.cpu.interrupt)
     busword = case["csr_dw"]
     sim_errs = []
     mems = {}
@@ -253,7 +339,7 @@ def run_soc(case):
     def script():
         # registers
         for name, (r, o) in sorted(objs.items()):
-            if r["kind"] == "mem":
+            if r["kind"] in ("mem", "ev"):
                 continue
             if name not in js["csr_registers"]:
                 sim_errs.append({"kind": "register-not-published", "register": name})
@@ -322,6 +408,42 @@ def run_soc(case):
                 if got != expect:
                     sim_errs.append({"kind": "accessor-read-returns-other-value", "register": name, "published": pub,
                                      "register_holds": hex(expect), "accessor_returned": hex(got), "accessor": hd["read"][name]})
+            if len(sim_errs) >= 3:
+                return
+        # interrupts: the published number is the bit of the CPU's interrupt vector that rises for this peripheral, alone
+        for per, n in sorted(irq_pub.items()):
+            r, p_ = objs[per + "_ev"]
+            en, pe = per + "_ev_enable", per + "_ev_pending"
+            if en not in hd["write"] or pe not in hd["write"]:
+                sim_errs.append({"kind": "event-manager-accessor-missing", "peripheral": per})
+                continue
+            for (shift, addr) in hd["write"][en]:
+                yield ("write", addr >> 2, (((1 << r["n"]) - 1) >> shift) & 0xffffffff)
+            for j in range(r["n"]):
+                trig = p_.triggers[j]
+                yield ("call", lambda s, t=trig: s.forced.__setitem__(t, 1))
+                yield ("wait", 1)
+                yield ("call", lambda s, t=trig: s.forced.__setitem__(t, 0))
+                yield ("wait", 3)
+                vec = yield ("call", lambda s: umask(soc.cpu.interrupt, s.sample[soc.cpu.interrupt]))
+                st["irqs"] = st.get("irqs", 0) + 1
+                if vec != (1 << n):
+                    dbg = yield ("call", lambda s, p_=p_: {"pending": s.bench.sim.evaluator.signal_values.get(p_.ev.pending.status),
+                                                           "enable": s.bench.sim.evaluator.signal_values.get(p_.ev.enable.storage),
+                                                           "irq": s.bench.sim.evaluator.signal_values.get(p_.ev.irq)})
+                    sim_errs.append({"kind": "interrupt-raised-on-other-line-than-published", "peripheral": per, "published_number": n,
+                                     "source": j, "cpu_interrupt_vector": bin(vec), "event_manager": dbg})
+                    break
+                for (shift, addr) in hd["write"][pe]:
+                    yield ("write", addr >> 2, ((1 << j) >> shift) & 0xffffffff)
+                yield ("wait", 3)
+                vec = yield ("call", lambda s: umask(soc.cpu.interrupt, s.sample[soc.cpu.interrupt]))
+                if vec != 0:
+                    sim_errs.append({"kind": "interrupt-line-not-released-by-published-pending-accessor", "peripheral": per,
+                                     "published_number": n, "source": j, "cpu_interrupt_vector": bin(vec)})
+                    break
+            for (shift, addr) in hd["write"][en]:
+                yield ("write", addr >> 2, 0)
             if len(sim_errs) >= 3:
                 return
         # CSR memories (published as csr_bases)
@@ -463,6 +585,7 @@ def run_shard(shard):
         col.ev("registers_replayed", st["regs"])
         col.ev("accessor_reads", st["reads"])
         col.ev("registers_wider_than_64_bits", st.get("wide", 0))
+        col.ev("interrupts_raised_and_located", st.get("irqs", 0))
         col.ev("accessor_writes", st["writes"])
         col.ev("mem_region_words_checked", st["memw"])
         col.ev("cross_format_entries_compared", st["xfmt"])
